@@ -135,7 +135,7 @@ class Cluster:
                 if f.kind == "F2":
                     return 0, "", f"{exe}: error: Invalid job id specified\n"
                 if f.kind == "F3":
-                    return 0, "garbage ###\n" if exe in ("sbatch", "qsub", "bsub") else "", ""
+                    return 0, "garbage ###\n", ""
         handler = getattr(self, f"_{self.flavour}_{exe}", None)
         if handler is None:
             raise HarnessError(f"no simulated executable {exe} for {self.flavour}")
